@@ -1028,6 +1028,14 @@ class Gen(object):
         return {'op': 'getitem', 'slot': k, 'index': self.index_for(sh, allow_bad='F2' in self.p.faults and
                                                                     self.rng.random() < 0.1)}
 
+    def g_iterate(self):
+        k, i = self.pick(lambda o: isinstance(o.val, np.ndarray) and o.val.ndim > 0 and o.val.shape[0] > 0)
+        if k is None:
+            return self.g_new(arr=True)
+        n = int(np.asarray(self.w.slots[i].obj.val).shape[0])
+        keep = sorted(set(self.rng.randrange(n) for _ in range(self.rng.choice([1, 2, 2, 3]))))
+        return {'op': 'iterate', 'slot': k, 'how': self.rng.choice(['list', 'for', 'next']), 'keep': keep}
+
     def g_reduce(self):
         r = self.rng
         k, i = self.pick(lambda o: self.is_arr(o) and self.is_real(o), prefer=lambda o: o.n_word <= 12)
@@ -1346,6 +1354,14 @@ class Gen(object):
         if 'F2' in self.p.faults and r.random() < 0.06:
             # malformed format string, or sizes given together with a dtype: must be rejected
             op['dtype'] = r.choice(['fxp-x8/2', 'fxp', 'Z3.4', '', 'fxp-s8', 's'])
+            if r.random() < 0.5:
+                # a well-formed dtype string TOGETHER with a size keyword: documented to raise ValueError,
+                # and a request that is turned down must leave the object as it was
+                op['dtype'] = self.recase('fxp-%s%d/%d' % ('s' if f[0] else 'u', f[1], f[2]))
+                op['with'] = r.choice([{'signed': not cur[0]}, {'signed': cur[0]}, {'signed': int(not cur[0])},
+                                       {'n_word': f[1]}, {'n_frac': f[2]},
+                                       {'n_int': f[1] - f[2] - (1 if f[0] else 0)},
+                                       {'signed': not cur[0], 'n_word': f[1]}])
             return op
         if r.random() < dtype_p:
             if r.random() < 0.5:
@@ -1602,6 +1618,7 @@ class Gen(object):
             add(3, self.g_bitwise, 'derive_bits')
             add(3, self.g_shift, 'derive_bits')
             add(5, self.g_getitem, 'derive_index')
+            add(1, self.g_iterate, 'derive_index')
             add(3, self.g_reduce, 'derive_reduce')
             add(1, self.g_npfunc, 'derive_reduce')
             add(7, self.g_call, 'mutate_value')
@@ -1699,6 +1716,7 @@ class Gen(object):
             add(4, self.g_conv_equal)
             add(4, self.g_setitem_from)
             add(2, self.g_getitem)       # views (rows, columns, stepped and reversed slices) as sources
+            add(1, self.g_iterate)
             add(3, lambda: self.g_config_set(['overflow', 'rounding']))
             add(1, lambda: self.g_config_set(['n_word_max', 'max_error', 'op_sizing', 'dtype_notation']))
             add(2, self.g_call)
